@@ -22,6 +22,13 @@ HS_RULE = ("hs: one Handshake object per case (role, pinned random source via ho
 PROPS = {
     "C01": {"components": ["chunk"], "rule": CHUNK_RULE,
             "explanation": "oracles C01.roundtrip / C01.packet_nonempty / C01.no_empty_packet on the real serializer+deserializer"},
+    "C02": {"components": ["interop"],
+            "rule": "interop: a real ClientSession and a real ServerSession wired back to back (server application accepts every request); canonical scenarios "
+                    "(connect; publish or play; 0..10 metadata/audio/video items with payloads 0, 1, chunk size +-1, 64 KiB+ and u32 timestamps rising/falling/wrapping/"
+                    "crossing 0xFFFFFF; partial deliveries in between; stop) under chunk sizes 1..2^31-1 and window sizes 1..2^32-1 on both sides and flush schedules "
+                    "byte-wise / fixed / mixed sizes alternating directions, plus free operation soups; non-trivial = at least four operations",
+            "explanation": "oracles C02.* on the real events: connect/publish/play complete on both sides, every item raised exactly once in order with identical length, "
+                           "hash, timestamp, application name and stream key, finished event after stop, no error, scenario quiesces"},
     "C05": {"components": ["hs"], "rule": HS_RULE,
             "explanation": "oracles vs the Python reference: emitted bytes = version + own packet 1 + own packet 2, no error, completion only after 3073 peer bytes, trailing bytes handed back exactly once in order"},
     "C11": {"components": ["hs"], "rule": HS_RULE,
@@ -63,7 +70,7 @@ PROPS = {
             "rule": CHUNK_RULE + " -- chunk sizes 0, 1..5, 2^24-1, 2^24, 2^24+1, multiples of 2^24, 2^31-1, 2^31, 2^32-1; payloads 16777215/16777216 (thorough); "
                     "AMF0 strings/names 65534..70000 bytes and characters, empty names; session configs with chunk sizes 0, 1, 2, 3, 5, 2^31-1, 2^31",
             "explanation": "oracles: C19.refused_or_honoured (real serializer refuses exactly 0 / > 2^31-1 / > 16777215 bytes), C19.amf0_refused; hangs and allocation blow-ups are observations of the harness watchdog (20 s per case) and allocation cap"},
-    "C03": {"components": ["amf0", "msg", "chunk", "hs", "server", "client"],
+    "C03": {"components": ["amf0", "msg", "chunk", "hs", "server", "client", "interop"],
             "rule": "all entry points: AMF0 decoder (reference encodings, all markers, truncations, mutated/random bytes, adversarial counts), message decoder (all 256 type ids x boundary/"
                     "well-formed/random bodies), chunk deserializer (library, foreign, mutated, random streams under partitions), handshake (malformed version bytes), server and client "
                     "sessions (scripts, mutated/truncated/random peer bytes in every reachable workflow state); non-trivial = per component rule",
